@@ -17,5 +17,12 @@ for unit in reg["units"]:
     u.process(os.path.join(VERIF, "units", unit, "unit.rs.tpl"))
     for k, v in getattr(u, "shape_seen", {}).items():
         shapes.setdefault(k, {}).update(v)
+    for k, v in getattr(u, "reviewed_seen", {}).items():
+        shapes.setdefault(k, {})["reviewed_sha"] = v
+    for k, v in getattr(u, "assumed_seen", {}).items():
+        shapes.setdefault(k, {})["assumed_sha"] = v
+    for k, v in getattr(u, "calls_seen", {}).items():
+        if not k.startswith("@"):
+            shapes.setdefault(k, {})["calls"] = sorted(set(shapes.get(k, {}).get("calls", [])) | set(v))
 json.dump(shapes, open(os.path.join(VERIF, "units", "shapes.json"), "w"), indent=1, sort_keys=True)
-print(len(shapes), "functions with ordinal hints")
+print(sum(1 for v in shapes.values() if len(v) > ("calls" in v)), "functions with ordinal hints;", sum(1 for v in shapes.values() if "calls" in v), "with a call baseline")
